@@ -2,6 +2,7 @@ use std::any::type_name;
 use std::borrow::Borrow;
 use std::fmt;
 use std::ops::Deref;
+use std::panic::{AssertUnwindSafe, catch_unwind, resume_unwind};
 use std::pin::Pin;
 use std::ptr::NonNull;
 use std::sync::{Arc, Mutex};
@@ -211,8 +212,15 @@ impl Drop for Remover {
 
         // SAFETY: The remover controls the shared object lifetime and is the only thing
         // that can remove the item from the pool.
-        unsafe {
+        let result = catch_unwind(AssertUnwindSafe(|| unsafe {
             pool.remove(self.handle);
+        }));
+
+        // Release the guard cleanly (never poisoning it) before re-throwing a destructor panic.
+        drop(pool);
+
+        if let Err(payload) = result {
+            resume_unwind(payload);
         }
     }
 }
